@@ -111,6 +111,11 @@ def scenarios(tier):
         sc.append(("fresh_residue_" + kind, c, SETUP_FRESH,
                    [[AT(8, 8), FILL(T0), VER(T0), AA(4, 4, 3), FILL(T0 + 1)], [AB(12), FILL(T1), DROP(T1), AB(5), FILL(T1 + 1), VER(T1 + 1)]],
                    {"live": True, "expect_live": True}))
+        # ABA on the cursor: the other thread takes the top, writes it and gives it back between this thread's read of the
+        # cursor and its (successful) CAS -- per entry point, since each has its own CAS
+        for nm, first in (("aa", AA(8, 8, 4)), ("at", AT(8, 8)), ("ab", AB(9))):
+            sc.append(("aba_cursor_%s_%s" % (nm, kind), c, SETUP_FRESH,
+                       [[first, FILL(T0), VER(T0)], [AB(12), FILL(T1), DROP(T1)]], {"live": True, "expect_live": True}))
         sc.append(("fresh_last_bytes_" + kind, c, [AB(127), FILL(1)],
                    [[AB(64), FILL(T0), VER(T0)], [AB(64), FILL(T1), VER(T1)]], {"live": True, "expect_live": True}))
     if tier == "thorough":
